@@ -6,7 +6,7 @@ from ..ir import ancestors, dotted, kwarg, norm, own_calls, own_nodes, short
 from .. import q
 
 
-@rule('C19.a', ['C19'], floor=4)
+@rule('C19.a', ['C19', 'C06'], floor=4)
 def count_before_jobs(ctx):
     """In each job-submitting method of GetObjectSubmitter the job count is announced
     before any job is queued, and the announced number is the number of jobs queued
